@@ -314,6 +314,19 @@ impl World {
                 }
                 self.compare_utxo_answer("C01", &a, &pages, &all, 0, "unfiltered get_utxos (limit 1000)")?;
             }
+            // the same address in its other valid spelling (BIP-173 allows all-upper-case bech32)
+            let bech: Vec<String> = addrs.iter().filter(|x| x.starts_with("bc1") || x.starts_with("tb1") || x.starts_with("bcrt1")).cloned().collect();
+            if !bech.is_empty() {
+                let a = bech[rotate % bech.len()].clone();
+                let upper = a.to_uppercase();
+                match self.all_pages(&upper, None, 0).map_err(|t| self.trap_violation("C01", "get_utxos_query", t))? {
+                    Ok((pages, all)) => {
+                        self.stats.probe("uppercase_bech32_queried");
+                        self.compare_utxo_answer("C01", &a, &pages, &all, 0, "unfiltered get_utxos (upper-case bech32 spelling)")?
+                    }
+                    Err(e) => return Err(violation("C01", "valid-spelling-rejected", format!("get_utxos({upper}) failed: {e:?}"))),
+                }
+            }
             for (short, long) in self.net.wallet.prefix_pairs.clone() {
                 let s = self.net.wallet.entries[short].address.clone().unwrap();
                 let l = self.net.wallet.entries[long].address.clone().unwrap();
@@ -432,6 +445,25 @@ impl World {
                             return Err(violation("C05", "query-update-differ", format!("get_utxos and get_utxos_query differ for {a}")));
                         }
                     }
+                }
+            }
+        }
+
+        if self.is_active("C05") {
+            let bech: Vec<String> = addrs.iter().filter(|x| x.starts_with("bc1") || x.starts_with("tb1") || x.starts_with("bcrt1")).cloned().collect();
+            if !bech.is_empty() {
+                let a = bech[rotate % bech.len()].clone();
+                let upper = a.to_uppercase();
+                let b1 = canister::get_balance_query(&a, net, None).map_err(|t| self.trap_violation("C05", "get_balance_query", t))?;
+                let b2 = canister::get_balance_query(&upper, net, None).map_err(|t| self.trap_violation("C05", "get_balance_query", t))?;
+                let u2 = self.all_pages(&upper, None, 0).map_err(|t| self.trap_violation("C05", "get_utxos_query", t))?;
+                let s2: Option<u64> = u2.as_ref().ok().map(|(_, all)| all.iter().map(|x| x.2).sum());
+                if b1 != b2 || b2.as_ref().ok().copied() != s2 {
+                    return Err(violation(
+                        "C05",
+                        "balance-differs-from-utxo-sum",
+                        format!("address {a} in upper-case spelling: get_balance {:?} (lower-case {:?}), sum of get_utxos {:?}", b2, b1, s2),
+                    ));
                 }
             }
         }
